@@ -123,11 +123,8 @@ func (s *LinkedLog) Read(offset uint64) ([]OffsetAndSizeAndSlot, indexes.OffsetA
 	if n <= 0 {
 		return nil, indexes.OffsetAndSize{}, errors.New("invalid compacted indexes length")
 	}
-	return s.ReadWithSize(offset, compactedIndexesLen)
-}
-
-func sizeOfUvarint(n uint64) int {
-	return binary.PutUvarint(make([]byte, binary.MaxVarintLen64), n)
+	// ReadWithSize wants the total size of the record, length prefix included.
+	return s.ReadWithSize(offset, uint64(n)+compactedIndexesLen)
 }
 
 func (s *LinkedLog) ReadWithSize(offset uint64, size uint64) ([]OffsetAndSizeAndSlot, indexes.OffsetAndSize, error) {
@@ -135,12 +132,20 @@ func (s *LinkedLog) ReadWithSize(offset uint64, size uint64) ([]OffsetAndSizeAnd
 		return nil, indexes.OffsetAndSize{}, fmt.Errorf("compacted indexes length too large: %d", size)
 	}
 	// debugln("compactedIndexesLen:", compactedIndexesLen)
-	// Read the compressed indexes
-	data := make([]byte, size-uint64(sizeOfUvarint(size))) // The size bytes have already been read.
-	_, err := s.file.ReadAt(data, int64(offset)+int64(sizeOfUvarint(size)))
+	// Read the whole record: uvarint(payloadLen) | compressed indexes | offset and size of the previous list.
+	record := make([]byte, size)
+	_, err := s.file.ReadAt(record, int64(offset))
 	if err != nil {
 		return nil, indexes.OffsetAndSize{}, err
 	}
+	// The width of the length prefix must be taken from the record itself. It cannot be derived from the
+	// total size: a 127-byte payload has a 1-byte prefix, but its total size (128) takes 2 bytes as uvarint
+	// (same at every other uvarint width boundary, e.g. total sizes 16384 and 16385).
+	payloadLen, prefixLen := binary.Uvarint(record)
+	if prefixLen <= 0 || payloadLen != size-uint64(prefixLen) || payloadLen < indexes.IndexValueSize_CidToOffsetAndSize {
+		return nil, indexes.OffsetAndSize{}, fmt.Errorf("invalid record at offset %d: length prefix does not match size %d", offset, size)
+	}
+	data := record[prefixLen:]
 	// debugln_(func() []any { return []any{"data:", bin.FormatByteSlice(data)} })
 	// the indexesBytes are up until the last 8 bytes, which are the `next` offset.
 	indexesBytes := data[:len(data)-9]
